@@ -79,7 +79,11 @@ def worker(sh):
     for k in ksel:
         t = rng.choice(logs)
         which = rng.random()
-        if which < 0.6:
+        if which < 0.15:
+            g.add('gt.mulip %s %s' % (enc[t], C.le(k, 32)), 'pow', 'gt_multiply(result==base)', t, k)
+        elif which < 0.2:
+            g.add('gt.nodivip %s %s' % (enc[t], C.le(k, 32)), 'pow', 'exponentiate_gt_nodiv(in place)', t, k)
+        elif which < 0.6:
             g.add('gt.mul %s %s' % (enc[t], C.le(k, 32)), 'pow', 'gt_multiply', t, k)
         elif which < 0.8:
             g.add('gt.nodiv %s %s' % (enc[t], C.le(k, 32)), 'pow', 'exponentiate_gt_nodiv', t, k)
@@ -88,7 +92,7 @@ def worker(sh):
     for _ in range(sh.pick(10, 200)):
         cs = [rng.choice([0, 1, XA - 1, XA, (1 << 64) - 1, rng.getrandbits(64), rng.randrange(XA)]) for _ in range(4)]
         t = rng.choice(logs)
-        g.add('gt.pox %s %s' % (enc[t], ' '.join(C.le(c, 8) for c in cs)), 'pox', t, cs)
+        g.add('gt.%s %s %s' % ('poxip' if rng.random() < 0.3 else 'pox', enc[t], ' '.join(C.le(c, 8) for c in cs)), 'pox', t, cs)
     for t in logs:
         for u in logs[:4]:
             g.add('gt.add %s %s' % (enc[t], enc[u]), 'add', t, u)
@@ -102,6 +106,7 @@ def worker(sh):
         stream = make_stream(rng, dr, orj)
         t = rng.choice(logs)
         g.add('gt.mulrand %s %s' % (enc[t], stream.hex()), 'rand', t, stream)
+        g.add('gt.mulrandip %s %s' % (enc[t], stream.hex()), 'rand', t, stream)
         g.add('rc.pox.random %s' % stream.hex(), 'prand', stream)
         g.add('c.wkd_random_gt %s' % stream.hex(), 'wkdgt', stream)
     for _ in range(sh.pick(4, 60)):
@@ -208,7 +213,7 @@ def run(ctx):
                 'class = (routine, scalar class, rejection counts)')
     ctx.extra['configs'] = cfgs
     ctx.assumptions = ['Python integer arithmetic', 'oracle/bls.py (E0 by the definitional pairing)', 'every GT element is a power of E0 (group of prime order r)']
-    need = ['gt_multiply|k>=2r', 'gt_multiply|k=r', 'gt_multiply|k=0', 'gt_multiply|k>=2^256-33', 'exponentiate_gt_nodiv|', 'gt_multiply_random|digit-rej9', 'gt_multiply_random|digit-rej0/outer-rej1',
+    need = ['gt_multiply(result==base)|', 'exponentiate_gt_nodiv(in place)|', 'gt_multiply|k>=2r', 'gt_multiply|k=r', 'gt_multiply|k=0', 'gt_multiply|k>=2^256-33', 'exponentiate_gt_nodiv|', 'gt_multiply_random|digit-rej9', 'gt_multiply_random|digit-rej0/outer-rej1',
             'gt_multiply_random|digit-rej0/outer-rej2', 'PowersOfX::random|digit-rej0/outer-rej1', 'wkdibe_random_gt|', 'gt_double|generic', 'gt_negate|generic', 'exponentiate_gt(PowersOfX)|']
     for r in need:
         if not any(k.startswith(r) for k in ctx.classes):
